@@ -125,13 +125,16 @@ class BigTtlTriplesYielder(BaseTriplesYielder):
         next_token, next_index = self._next_line_token(a_line, 0)
         while next_token != None:
             if next_token == ",":
-                yield self._current_triple()
+                if self._state == _NOT_WAITING:  # A closure only yields when there is a complete triple pending
+                    yield self._current_triple()
                 self._state = _WAITING_FOR_OBJ
             elif next_token == ";":
-                yield self._current_triple()
+                if self._state == _NOT_WAITING:
+                    yield self._current_triple()
                 self._state = _WAITING_FOR_PRED
             elif next_token == ".":
-                yield self._current_triple()
+                if self._state == _NOT_WAITING:  # e.g., "s p o ; ." --> the triple was already yielded by ";"
+                    yield self._current_triple()
                 self._state = _WAITING_FOR_SUBJ
             else:
                 self._assing_tmp_element_and_promote_state(next_token)
